@@ -186,10 +186,27 @@ Ltac crush H := repeat (match type of H with
   | context [if ?x then _ else _] => destruct x eqn:? end).
 Lemma sp_offer_nx c st nx v idx r : sp_offer c st nx v idx = Some r -> nx <= s_nx r /\ s_out r < 100.
 Proof. unfold sp_offer. intros H. crush H; cbn; split; lia. Qed.
+Lemma sp_take_elem_small c st nx v a k i sk r : sp_take_elem c st nx v a k i sk = Some r -> s_out r < 100.
+Proof. unfold sp_take_elem. cbv zeta. intros H. crush H; cbn; lia. Qed.
+Lemma sp_sink_small c : forall sk st nx v a k i r, sp_sink c st nx v a k i sk = Some r -> s_out r < 100.
+Proof.
+  induction sk as [| |d|d j| |sk' IH|n0 d0 sk' IH|n0 sk' IH|]; intros st nx v a k i r H; cbn [sp_sink] in H;
+    try (exact (sp_take_elem_small _ _ _ _ _ _ _ _ _ H)).
+  - cbv zeta in H. destruct (sp_sink c _ (nx + 1) v _ k i sk') as [r'|] eqn:E; [|discriminate].
+    apply IH in E. injection H as <-. exact E.
+  - cbv zeta in H. destruct (sp_sink c st (nx + n0) v a k i sk') as [r'|] eqn:E; [|discriminate].
+    apply IH in E. injection H as <-. exact E.
+Qed.
 Lemma sp_take_nx c st nx v k idx sk r : sp_take c st nx v k idx sk = Some r -> nx <= s_nx r /\ s_out r < 100.
 Proof.
-  unfold sp_take, sp_take_elem. cbv zeta. intros H. crush H; cbn; try (split; lia);
-  match goal with Hs : _ = inr ?s |- _ => crush Hs; cbn; split; lia end.
+  unfold sp_take. cbv zeta. intros H.
+  destruct (get_a v st) as [a|]; [|discriminate].
+  destruct k;
+    repeat match type of H with
+    | context [if ?x then _ else _] => destruct x eqn:?
+    end;
+    try (injection H as <-; cbn; split; lia);
+    (split; [exact (sp_sink_nx _ _ _ _ _ _ _ _ _ H)|exact (sp_sink_small _ _ _ _ _ _ _ _ _ H)]).
 Qed.
 Lemma sp_capacity_nx c st nx v want exact r : sp_capacity c st nx v want exact = Some r -> nx <= s_nx r /\ s_out r < 100.
 Proof. unfold sp_capacity. cbv zeta. intros H. crush H; cbn; split; lia. Qed.
@@ -384,8 +401,7 @@ Definition adm_spliceb (c : cfg) (w : world) (vid : nat) (sb eb : bound) (n : N)
 Definition admissibleb (c : cfg) (w : world) (o : op) : bool :=
   match o with
   | OPush _ v _ | OInsert _ v _ _ => adm_vecb c w v
-  | OPop _ _ k | ORemove _ _ _ k | OSwapRemove _ _ _ k =>
-      match k with KPush d | KIns d _ => adm_vecb c w d | _ => true end
+  | OPop _ _ k | ORemove _ _ _ k | OSwapRemove _ _ _ k => forallb (adm_vecb c w) (sink_dsts k)
   | ONew _ bk | OCloneEmptyIn _ _ bk => bk_wfb bk
   | OClone v _ =>
       match get_vec v w with
@@ -500,7 +516,7 @@ Proof.
     try (apply adm_cloneb_sound; exact H);
     try (apply adm_vecb_sound; exact H); try (apply bk_wfb_sound; exact H);
     try (apply adm_reserveb_sound; exact H); try (apply adm_shrinkb_sound; exact H);
-    destruct k; try exact I; apply adm_vecb_sound; exact H.
+    intros d Hin; apply adm_vecb_sound; rewrite forallb_forall in H; apply H; exact Hin.
 Qed.
 Lemma Admissibleb_sound c ops : forall w, Admissibleb c w ops = true -> Admissible c w ops.
 Proof.
@@ -553,7 +569,10 @@ Definition ex_ops : list op :=
     OPush Erased 8 (SLazy 1 10 0);
     (* removal handles of another vector as sources *)
     OPush Erased 10 (STemp 9 TPop 0); OInsert Erased 10 0 (STemp 9 TRemove 0); OInsert Erased 10 9 (STemp 9 TSwapRemove 0);
-    OPush Erased 10 (STemp 9 TPop 0); OPush Erased 8 (STemp 10 TRemove 1) ].
+    OPush Erased 10 (STemp 9 TPop 0); OPush Erased 8 (STemp 10 TRemove 1);
+    (* the handle is used before it is consumed: written through, lazily cloned and downcast *)
+    ORemove Erased 10 0 (KMut KDown); OPop Erased 10 (KMut (KMut (KPush 9))); OPop Erased 9 (KLazyDown 2 (KMut KForget));
+    OPop Erased 8 (KLazyDown 1 (KPush 9)) ].
 
 Example ex_spec_defined : exists rs, spec_run ex_cfg [] 1 ex_ops = Some rs /\ length rs = length ex_ops.
 Proof. eexists. split; [vm_compute; reflexivity|reflexivity]. Qed.
@@ -580,7 +599,8 @@ Example ex_outcomes :
      (0,0,[36]); (2,1,[]); (0,0,[]); (2,1,[]); (0,0,[37]); (0,0,[40]);
      (0,0,[]); (0,0,[]); (0,0,[]); (0,0,[4; 1; 41; 2; 41; 1; 42; 0]);
      (0,0,[]); (0,0,[]); (2,1,[]); (2,1,[]); (2,3,[]);
-     (0,0,[]); (0,0,[]); (2,1,[]); (2,1,[]); (2,3,[])].
+     (0,0,[]); (0,0,[]); (2,1,[]); (2,1,[]); (2,3,[]);
+     (0,0,[45; 46]); (0,0,[44; 47]); (0,0,[49; 50; 48]); (0,0,[52])].
 Proof. vm_compute. reflexivity. Qed.
 
 (** ** Corollaries in the vocabulary of the properties *)
